@@ -598,10 +598,9 @@ def priority_rule(rep, prog, cfg):
         rep.check(v in alts, rule, "%s/alternative %s present" % (cfg, v), pc[0].loc(pc[0].span), "no alternative produces %s" % v)
 
 
-def grammar_rule(rep, prog, cfg):
+def grammar_rule(rep, prog, cfg, rule="C03.grammar", only=None):
     """A10: the line grammar denoted by the nom combinator trees equals the MPD line grammar."""
     from .. import grammar as G
-    rule = "C03.grammar"
     pc = body_by_name(prog, COMPONENT_PARSE)
     if len(pc) != 1:
         rep.fail(rule + ".anchor", cfg, COMPONENT_PARSE, "function not found")
@@ -628,6 +627,8 @@ def grammar_rule(rep, prog, cfg):
         rep.fail(rule, cfg + "/component parser", pc[0].loc(pc[0].span), "the component parser is not an alt(..) of mapped alternatives (idiom unknown: failing closed)")
         return
     for variant, (ref, conds) in REF.items():
+        if only is not None and variant not in only:
+            continue
         info = alts.get(variant)
         if info is None or info["index"] >= len(top[1]):
             rep.fail(rule, "%s/%s" % (cfg, variant), pc[0].loc(pc[0].span), "no alternative produces %s" % variant)
